@@ -1,6 +1,7 @@
 """Binary-level case producers: drive the built lsp4spl binary (lspclient) and return
 (case_line, implementation_answer) pairs for the Lean driver, plus direct violations."""
 import itertools
+import zlib
 import json
 import random
 from concurrent.futures import ThreadPoolExecutor
@@ -8,10 +9,23 @@ from concurrent.futures import ThreadPoolExecutor
 import lspclient as lc
 
 URI = "file:///verif/x.spl"
-DOC = "proc main() {\n    printi(1);\n}\n"
+DOC = "proc main() {\n    var cnt: int;\n    cnt := 1;\n    printi(cnt);\n}\n"
 
 INIT_PARAMS = {"capabilities": {}}
 INIT_PARAMS_DIAG = {"capabilities": {"textDocument": {"publishDiagnostics": {}}}}
+# clients that did NOT announce publishDiagnostics, in several shapes (a `textDocument` object alone is no
+# announcement), and clients that did
+INIT_NODIAG_VARIANTS = [
+    {"capabilities": {}},
+    {"capabilities": {"textDocument": {}}},
+    {"capabilities": {"textDocument": {"hover": {"contentFormat": ["markdown", "plaintext"]}, "synchronization": {"didSave": True}}}},
+    {"capabilities": {"workspace": {"applyEdit": True}, "general": {"positionEncodings": ["utf-16"]}}},
+    {"processId": None, "rootUri": None, "capabilities": {"textDocument": {"completion": {"completionItem": {"snippetSupport": True}}}}},
+]
+INIT_DIAG_VARIANTS = [
+    {"capabilities": {"textDocument": {"publishDiagnostics": {}}}},
+    {"capabilities": {"textDocument": {"publishDiagnostics": {"relatedInformation": True, "versionSupport": False}, "hover": {}}}},
+]
 
 SUPPORTED = [
     ("textDocument/foldingRange", {"textDocument": {"uri": URI}}),
@@ -23,6 +37,21 @@ SUPPORTED = [
     ("textDocument/references", {"textDocument": {"uri": URI}, "position": {"line": 0, "character": 6},
                                  "context": {"includeDeclaration": True}}),
     ("textDocument/prepareRename", {"textDocument": {"uri": URI}, "position": {"line": 0, "character": 6}}),
+    ("textDocument/prepareRename", {"textDocument": {"uri": URI}, "position": {"line": 2, "character": 5}}),
+    ("textDocument/definition", {"textDocument": {"uri": URI}, "position": {"line": 3, "character": 12}}),
+    ("textDocument/typeDefinition", {"textDocument": {"uri": URI}, "position": {"line": 2, "character": 4}}),
+    ("textDocument/implementation", {"textDocument": {"uri": URI}, "position": {"line": 3, "character": 5}}),
+    ("textDocument/signatureHelp", {"textDocument": {"uri": URI}, "position": {"line": 3, "character": 11}}),
+    ("textDocument/references", {"textDocument": {"uri": URI}, "position": {"line": 2, "character": 5},
+                                 "context": {"includeDeclaration": False}}),
+    ("textDocument/formatting", {"textDocument": {"uri": URI}, "options": {"tabSize": 0, "insertSpaces": True}}),
+    ("textDocument/formatting", {"textDocument": {"uri": URI}, "options": {"tabSize": 8, "insertSpaces": False, "trimTrailingWhitespace": True}}),
+    ("textDocument/hover", {"textDocument": {"uri": URI}, "position": {"line": 99, "character": 99}}),
+    ("textDocument/completion", {"textDocument": {"uri": "file:///verif/never-opened.spl"}, "position": {"line": 0, "character": 0}}),
+] + [
+    # rename: whatever the new name looks like, the request is answered (a result or an error response)
+    ("textDocument/rename", {"textDocument": {"uri": URI}, "position": {"line": 2, "character": 5}, "newName": nn})
+    for nn in ["total", "my counter", "loop-counter", "zähler", "", "1abc", "while", "printi", "a" * 300, "😀"]
 ]
 UNKNOWN_REQ = ["workspace/symbol", "foo/bar", "textDocument/documentHighlight", "$/progressReport", "$/cancelRequest",
                "$/verif/other", "window/workDoneProgress/create", "Shutdown", "textDocument/Hover", "initialized", "exit",
@@ -94,13 +123,18 @@ def c18_cases(run):
         # bias towards well-formed prefixes so that the main and shutdown phases are reached
         pre = rng.choice(["", "IJ", "IJ", "IJD", "I", "IJS"])
         seqs.append(pre + "".join(rng.choice(letters) for _ in range(n - len(pre))))
+    # many requests behind `shutdown`, written at once: every one of them is still owed a response
+    for k in range(6 if thorough else 3):
+        seqs.append(rng.choice(["IJ", "IJD"]) + "S" + "".join(rng.choice("QQU") for _ in range(60 + 70 * k)) + "X")
+    # and many requests in the main phase
+    seqs.append("IJD" + "Q" * 150 + "SX")
     sessions = [build_session(s, rng) for s in seqs]
     violations = []
 
     def one(sess):
         msgs, toks = sess
         data = b"".join(lc.frame(m) for m in msgs)
-        r = lc.run_session([data], timeout=10.0)
+        r = lc.run_session([data], timeout=10.0 if len(msgs) < 40 else 30.0)
         return r
 
     pairs = []
@@ -152,6 +186,19 @@ def c18_cases(run):
 NONASCII_DOC = "// Kommentar: é € 😀\nproc main() {\n    var ä: int;\n    printi('€');\n    x := 1;\n}\n"
 
 
+def c19_flood_session():
+    """a long tail of requests behind `shutdown` (each owed an InvalidRequest response) and a burst before it"""
+    msgs = [lc.request(1, "initialize", INIT_PARAMS_DIAG), lc.notification("initialized", {}),
+            lc.notification("textDocument/didOpen", {"textDocument": {"uri": URI, "languageId": "spl", "version": 1, "text": DOC}})]
+    for k in range(60):
+        msgs.append(lc.request(10 + k, "textDocument/hover", {"textDocument": {"uri": URI}, "position": {"line": 2, "character": 5}}))
+    msgs.append(lc.request(5000, "shutdown"))
+    for k in range(160):
+        msgs.append(lc.request(6000 + k, "textDocument/hover" if k % 3 else "foo/bar", {"textDocument": {"uri": URI}, "position": {"line": 2, "character": 5}}))
+    msgs.append(lc.notification("exit"))
+    return b"".join(lc.frame(m) for m in msgs)
+
+
 def c19_session(variant):
     uri = "file:///verif/ä.spl" if variant % 2 else URI
     msgs = [
@@ -181,8 +228,9 @@ def c19_cases(run):
     thorough = run.tier == "thorough"
     violations = []
     n_runs = 0
-    for variant in range(3 if thorough else 2):
-        data = c19_session(variant)
+    for variant in list(range(3 if thorough else 2)) + ["flood"]:
+        flood = variant == "flood"
+        data = c19_flood_session() if flood else c19_session(variant)
         base = lc.run_session([data], timeout=20)
         if base["timed_out"] or base["problems"] or base["rc"] != 0:
             violations.append(("binary", f"SESSION {variant} unsplit", f"rc={base['rc']} problems={base['problems']} timed_out={base['timed_out']}", "", "baseline session failed"))
@@ -190,9 +238,22 @@ def c19_cases(run):
         want = projections(base)
         jobs = []
         stride = 1 if thorough else 7
-        for i in range(1 + (variant % stride), len(data), stride):
+        if flood:
+            # the unsplit run is the fastest writer; slow writers (many chunks, delays) give the server time
+            stride = 499 if thorough else 2999
+        for i in range(1 + ((0 if flood else variant) % stride), len(data), stride):
             jobs.append(("split2", [data[:i], data[i:]], f"{i}"))
-        for _ in range(400 if thorough else 40):
+        if flood:
+            # one message per write, waiting a little in between
+            frames = []
+            rest = data
+            while rest:
+                head, _, tail = rest.partition(b"\r\n\r\n")
+                n = int(head.split(b":")[1])
+                frames.append(head + b"\r\n\r\n" + tail[:n])
+                rest = tail[n:]
+            jobs.append(("per-message", frames, "frames"))
+        for _ in range((400 if thorough else 40) if not flood else 8):
             cuts = sorted(rng.sample(range(1, len(data)), rng.randrange(2, 12)))
             chunks = [data[a:b] for a, b in zip([0] + cuts, cuts + [len(data)])]
             jobs.append(("splitk", chunks, ",".join(map(str, cuts))))
@@ -201,7 +262,7 @@ def c19_cases(run):
 
         def one(job):
             kind, chunks, desc = job
-            delay = 0.002 if kind == "delayed3" else 0.0
+            delay = 0.002 if kind in ("delayed3", "per-message") else 0.0
             return lc.run_session(chunks, timeout=30, delay=delay)
 
         with ThreadPoolExecutor(max_workers=16) as ex:
@@ -267,7 +328,8 @@ def c20_history(rng, n):
 
 
 def c20_messages(toks, diag):
-    msgs = [lc.request(100000, "initialize", INIT_PARAMS_DIAG if diag else INIT_PARAMS), lc.notification("initialized", {})]
+    variants = INIT_DIAG_VARIANTS if diag else INIT_NODIAG_VARIANTS
+    msgs = [lc.request(100000, "initialize", variants[zlib.crc32(" ".join(toks).encode()) % len(variants)]), lc.notification("initialized", {})]
     for k, t in enumerate(toks):
         kind = t[0]
         rest = t[1:]
